@@ -329,7 +329,9 @@ impl sval::Value for CV {
     fn stream<'sval, S: sval::Stream<'sval> + ?Sized>(&'sval self, stream: &mut S) -> sval::Result {
         match self {
             CV::Null => stream.null(),
-            CV::Arr(..) | CV::Opt(_) | CV::OptNone | CV::BytesRef(_) => stream.value_computed(&*self.norm()),
+            CV::Arr(..) | CV::Opt(_) | CV::OptNone => stream.value_computed(&*self.norm()),
+            // streamed BORROWED for 'sval (binary_fragment, not binary_fragment_computed)
+            CV::BytesRef(b) => stream.value(sval::BinaryArray::new(b)),
             CV::Reent(r) => stream.value(r),
             CV::Disp(d) => sval::stream_display(stream, d),
             CV::Dbg(d) => sval::stream_display(stream, format_args!("{d:?}")),
@@ -533,6 +535,19 @@ impl Pool {
                 1 => u64::MAX as u128 + 1,
                 _ => ((self.rng.next() as u128) << 64) | (1u128 << 100),
             }),
+            // 128-bit typed, 64-bit valued
+            "I128Small" => CV::I128(match self.rng.below(4) {
+                0 => i64::MIN as i128,
+                1 => i64::MAX as i128,
+                2 => -1,
+                _ => self.i64() as i128,
+            }),
+            "U128Small" => CV::U128(match self.rng.below(4) {
+                0 => i64::MAX as u128,
+                1 => 0,
+                2 => 1 << 53,
+                _ => (self.rng.next() >> 1) as u128,
+            }),
             "F64" => CV::F64(self.f64()),
             "NaN" => CV::F64(if self.rng.below(2) == 0 { f64::NAN } else { -f64::NAN }),
             "Inf" => CV::F64(if self.rng.below(2) == 0 { f64::INFINITY } else { f64::NEG_INFINITY }),
@@ -660,6 +675,40 @@ impl Pool {
                             CV::Bytes(k)
                         }
                         "SeqKey" => CV::Seq(vec![CV::I64(self.i64().wrapping_add(i as i64)), CV::Str(format!("t{i}{}", self.pick(STRS)))]),
+                        // the null / unit / None key: a map has at most one
+                        "NullKey" => {
+                            if i >= 1 { break; }
+                            if self.rng.below(2) == 0 { CV::Null } else { CV::None }
+                        }
+                        // Option keys: None, then distinct Some(i64)
+                        "OptKey" => {
+                            if i == 0 { CV::None } else { CV::Some(Box::new(CV::I64(1000 + i as i64 + (self.rng.below(1000) as i64) * 10))) }
+                        }
+                        // a map used as a key (distinct by its first entry)
+                        "MapAsKey" => CV::Map(vec![
+                            (CV::Str("p".into()), CV::I64(i as i64)),
+                            (CV::Str(format!("q{}", self.pick(STRS))), CV::Str(self.pick(UNIS).to_string())),
+                        ]),
+                        // a compound key: null, bytes (computed and borrowed), bool, float, nested sequence, nested map
+                        "TupKey" => CV::Seq(vec![
+                            CV::I64(i as i64),
+                            if self.rng.below(2) == 0 { CV::Null } else { CV::None },
+                            CV::Bytes(vec![0xff, 0x00, i as u8]),
+                            CV::BytesRef([i as u8, 1, 2, 3, 0xfe, 0xff, 0, 0x80]),
+                            CV::Bool(self.rng.below(2) == 0),
+                            CV::F64(self.f64()),
+                            CV::Seq(vec![CV::I64(self.i64()), CV::Seq(vec![])]),
+                            CV::Map(vec![(CV::I64(7), CV::Str(self.pick(STRS).to_string())), (CV::Seq(vec![CV::Bool(true)]), CV::Null)]),
+                        ]),
+                        // a byte string streamed borrowed
+                        "BytesRefKey" => {
+                            let mut b = [0u8; 8];
+                            for x in b.iter_mut() {
+                                *x = self.rng.next() as u8;
+                            }
+                            b[7] = i as u8;
+                            CV::BytesRef(b)
+                        }
                         o => panic!("bad key kind {o}"),
                     };
                     v.push((k, self.value_at(&rest[1..], key).0));
